@@ -1,4 +1,6 @@
 import Fpdec.Prim
+import Fpdec.Std
+import Fpdec.Spec.Arith
 
 /-!
 # Spec: canonical text of a decimal (C07, C11) and the literal grammar (C06, C18)
@@ -80,5 +82,13 @@ def parseSpec (s : List Nat) : ParseRes :=
       let nf := f - e
       if nf > 18 then .bad
       else if (D : Int) ≤ (2 : Int) ^ 127 - 1 then .ok (sgn D) nf.toNat else .bad
+
+/-- C11: `format!("{:…}", d)`: the canonical text of `d` rounded (mode `tm`) to `min(P, 18)` fractional digits
+    (`P` absent: d's own digits; zero-extended when `P` exceeds them), sign from `d`, padded by std's rule -/
+def displaySpec (tm : Mode) (f : Std.FmtSpec) (a : Int) (p : Nat) : List Nat :=
+  let prec := match f.prec with | some pr => min pr 18 | none => p
+  let c : Int := if prec ≥ p then a * 10 ^ (prec - p) else specRound tm a (10 ^ (p - prec))
+  let body := render c.natAbs prec
+  Std.padIntegral f (decide (a ≥ 0)) body
 
 end Fpdec.Spec
